@@ -1,9 +1,10 @@
 CONSTANTS
-  Depth = 8
+  Depth = 1
   Types = {"A", "B"}
-  MaxUses = 2
+  MaxUses = 1
   RawToo = TRUE
   SeedIds = {0, 1, 2, 3, 4}
   Subjects = {1, 2}
 SPECIFICATION Spec
+INVARIANT Emit
 CONSTRAINT Small
